@@ -33,7 +33,7 @@ def lower (s : Str) : Str := s.map Char.toLower
 def S (s : String) : Str := s.toList
 
 def isAsciiAlpha (c : Char) : Bool := ('a' ≤ c && c ≤ 'z') || ('A' ≤ c && c ≤ 'Z')
-def isAsciiDigit (c : Char) : Bool := '0' ≤ c && c ≤ '9'
+def isAsciiDigit (c : Char) : Bool := c.isDigit
 def isIdChar (c : Char) : Bool := isAsciiAlpha c || isAsciiDigit c || c == '_'
 
 /-- `EdifTokenizer.is_valid_identifier` : `re.match(r"[a-zA-Z]|&\a*", tok) and len(tok) <= 256` -/
@@ -61,21 +61,15 @@ def stringTok (s : Str) : Option Str :=
     | _ => none
   | _ => none
 
-def digitVal (c : Char) : Nat := c.toNat - '0'.toNat
-
 /-- value of a digit string, most significant first -/
-def ofDigits (ds : Str) : Nat := ds.foldl (fun a c => 10 * a + digitVal c) 0
+def ofDigits (ds : Str) : Nat := Nat.ofDigitChars 10 ds 0
 
 inductive IntTok where
   | ok (i : Int)
   | bad          -- not `[-+]?\d+…` : RuntimeError
   | weird        -- digits followed by other characters: Python's int() decides; not modelled
 
-def intTok (s : Str) : IntTok :=
-  let (neg, body) := match s with
-    | '-' :: r => (true, r)
-    | '+' :: r => (false, r)
-    | _ => (false, s)
+def intBody (neg : Bool) (body : Str) : IntTok :=
   match body with
   | [] => .bad
   | c :: _ =>
@@ -83,6 +77,13 @@ def intTok (s : Str) : IntTok :=
     else if body.all isAsciiDigit then
       .ok (if neg then - (Int.ofNat (ofDigits body)) else Int.ofNat (ofDigits body))
     else .weird
+
+/-- `parse_integerToken`: `[-+]?\d+` -/
+def intTok (s : Str) : IntTok :=
+  match s with
+  | '-' :: r => intBody true r
+  | '+' :: r => intBody false r
+  | _ => intBody false s
 
 def joinDot : List Str → Str
   | [] => []
